@@ -8,7 +8,7 @@ AX = {
     'A5': 'A5 asyncio.Queue: FIFO, put_nowait/get_nowait/task_done/join accounting, QueueFull/QueueEmpty',
     'A6': 'A6 asyncio.Event / asyncio.Semaphore: value >= 0, acquire returns holding one permit, a cancelled acquire holds nothing',
     'A7': 'A7 ContextVar get/set/reset act on the current task context only',
-    'A8': 'A8 CancelledError arises only at suspension points (task cancelled, inner task cancelled, or user code raised it)',
+    'A8': 'A8 CancelledError arises only at suspension points (task cancelled, inner task cancelled, or user code raised it); asyncio.current_task().cancelling() > 0 exactly when a cancellation of the current task was requested',
     'A9': 'A9 pydantic TypeAdapter/model_validate return a conforming value or raise; model_dump_json returns one line',
     'A10': 'A10 CPython: unbounded ints, id() injective on live objects, dicts insertion ordered, list.sort stable, finite class table with one generic user subclass per exception class',
     'X1': 'X1 logger.* / warnings.warn calls are dropped together with the evaluation of their arguments',
